@@ -632,6 +632,7 @@ func awsOpCase(r *Rng, fleet bool, w io.Writer) string {
 				}
 				sim.ec2.fleetSplit = r.pickI(1, 1, 2, 3)
 				sim.ec2.fleetMode = r.pick("ok", "ok", "ok", "ok", "some+err", "none+err", "none", "short+err", "short+err")
+				sim.ec2.statusOmit = r.pickI(0, 0, 0, 1, 3)
 				sim.ec2.notReady = map[int]bool{}
 				switch r.intn(5) {
 				case 0:
